@@ -448,7 +448,12 @@ impl<'n> Builder<'n> {
         match self.nest.levels[i] {
             Level::Loop(n) => vec![Stmt::Loop {
                 count: num(n as i64),
-                body: child,
+                // (the loop's own `index` is used once more behind whatever is nested in the body)
+                body: {
+                    let mut b = child;
+                    b.push(byte(vec![bin(id("index"), "+", hex(0x40 + i as i64))]));
+                    b
+                },
             }],
             Level::If(c, shape) => {
                 let cond = match c {
@@ -526,10 +531,19 @@ impl<'n> Builder<'n> {
                 out
             }
             Level::Braces { labelled } => {
+                // a label that is called like a macro which is defined outside the block and invoked inside it:
+                // the invocation still means the macro (a label is nothing that can be invoked)
+                let mut body = vec![];
+                for (j, l) in self.nest.levels.iter().enumerate().skip(i + 1) {
+                    if let Level::Macro { place: Place::Top | Place::After, .. } = l {
+                        body.push(label(&format!("m{}", j)));
+                    }
+                }
+                body.extend(child);
                 if labelled {
-                    vec![label_block(&format!("lb{}", i), child)]
+                    vec![label_block(&format!("lb{}", i), body)]
                 } else {
-                    vec![Stmt::Braces(child)]
+                    vec![Stmt::Braces(body)]
                 }
             }
             Level::Import { imp: kind, block } => {
